@@ -116,20 +116,37 @@ class MultiFunction(Generic[T, P]):
     def _find_and_cache_method(self, key: T) -> Method[T, P] | None:
         """Find and cache the best method for dispatch value `key`."""
         with self._lock:
-            best_key: T | None = None
-            best_method: Method | None = None
-            for method_key, method in self._methods.items():
-                if self._is_a(key, method_key):
-                    if best_key is None or self._precedes(method_key, best_key):
-                        best_key, best_method = method_key, method
-                    if not self._precedes(best_key, method_key):
-                        raise runtime.RuntimeException(
-                            "Cannot resolve a unique method for dispatch value "
-                            f"'{key}'; '{best_key}' and '{method_key}' both match and "
-                            "neither is preferred"
-                        )
+            candidates = [
+                (method_key, method)
+                for method_key, method in self._methods.items()
+                if self._is_a(key, method_key)
+            ]
 
-            if best_method is None:
+            # The best method is the one whose dispatch value precedes the dispatch
+            # value of every other candidate. It can only be selected once all of the
+            # candidates are known, otherwise the result would depend on the iteration
+            # order of the method table.
+            best = [
+                (method_key, method)
+                for method_key, method in candidates
+                if all(
+                    self._precedes(method_key, other_key)
+                    for other_key, _ in candidates
+                    if other_key is not method_key
+                )
+            ]
+
+            best_method: Method | None
+            if len(best) == 1:
+                best_method = best[0][1]
+            elif candidates:
+                matching = ", ".join(f"'{method_key}'" for method_key, _ in candidates)
+                raise runtime.RuntimeException(
+                    "Cannot resolve a unique method for dispatch value "
+                    f"'{key}'; {matching} all match and none of them is preferred "
+                    "over all of the others"
+                )
+            else:
                 best_method = self._methods.val_at(self._default)
 
             if best_method is not None:
